@@ -82,6 +82,8 @@ def header(text):
     icvn = head[84:89]
     if icvn not in ('00401', '00501'):
         raise NotX12('unknown version')
+    if head[105].isalnum() or head[3].isalnum() or head[104].isalnum():
+        raise NotX12('a letter or digit as delimiter')       # cannot delimit anything ('S' splits 'ISA' itself): a malformed ISA
     return head[105], head[3], head[104], (head[82] if icvn == '00501' else None), icvn
 
 
